@@ -158,7 +158,7 @@ class Matrix3(Matrix):
         values[...,2,2] =  cos_angle
         values[...,0,0] =  1.
 
-        obj = Matrix3(values.reshape(angle._shape_ + (3,3)))
+        obj = Matrix3(values.reshape(angle._shape_ + (3,3)), angle._mask_)
 
         if recursive and angle._derivs_:
             matrix = np.zeros(angle._shape_ + (3,3))
@@ -195,7 +195,7 @@ class Matrix3(Matrix):
         values[...,2,2] =  cos_angle
         values[...,1,1] =  1.
 
-        obj = Matrix3(values.reshape(angle._shape_ + (3,3)))
+        obj = Matrix3(values.reshape(angle._shape_ + (3,3)), angle._mask_)
 
         if recursive and angle._derivs_:
             matrix = np.zeros(angle._shape_ + (3,3))
@@ -232,7 +232,7 @@ class Matrix3(Matrix):
         values[...,1,1] =  cos_angle
         values[...,2,2] =  1.
 
-        obj = Matrix3(values.reshape(angle._shape_ + (3,3)))
+        obj = Matrix3(values.reshape(angle._shape_ + (3,3)), angle._mask_)
 
         if recursive and angle._derivs_:
             matrix = np.zeros(angle._shape_ + (3,3))
@@ -298,7 +298,8 @@ class Matrix3(Matrix):
                            -cos_ra * sin_dec, -sin_ra * sin_dec, cos_dec,
                             cos_ra * cos_dec,  sin_ra * cos_dec, sin_dec],
                            axis=-1)
-        return Matrix3(values.reshape(values.shape[:-1] + (3,3)))
+        return Matrix3(values.reshape(values.shape[:-1] + (3,3)),
+                       Qube.or_(ra._mask_, dec._mask_))
 
     #===========================================================================
     def rotate(self, arg, recursive=True):
